@@ -14,7 +14,7 @@
 (* positions are 1-based here: Rust index j is position j+1, and `done`    *)
 (* counts finished columns in both.                                        *)
 (***************************************************************************)
-EXTENDS Naturals, Sequences, FiniteSets, TLC, Gf2
+EXTENDS Naturals, Sequences, FiniteSets, TLC, Json, Gf2
 CONSTANTS NR, NC
 ASSUME NR \in Nat /\ NC \in Nat \ {0}      \* at least one column (documented precondition)
 
@@ -116,4 +116,13 @@ Part2Agrees ==
                   LET x == XorSel(M, {j + 1 : j \in V})
                   IN /\ SumIsZero(C, V) <=> (x = {})
                      /\ \A r \in Rows : OddAt(C, r, V) <=> (r \in x)
+
+\* (G) every terminal behaviour as JSON (0-based indices): the matrix and the family the model returns.
+\* The harness replays the matrix into the real kernel_gauss; the trace specification compares the
+\* real result with `expect` as model drift (which basis is returned is not part of the property).
+Emit ==
+  pc = "done" =>
+    PrintT(<<"REPLAY", ToJson([nrows |-> NR, ncols |-> NC,
+                               cols |-> [j \in 1..NC |-> SetToSeq(M[j])],
+                               expect |-> [i \in 1..Len(result) |-> SetToSeq({c - 1 : c \in result[i]})]])>>)
 =============================================================================
